@@ -323,6 +323,11 @@ class PoolGen:
                     self.emit({"op": "AddAccountBalance", "acct": w, "amt": r.choice([50, 500])})
                 else:
                     self.withdraw(w)
+            if r.random() < 0.5:
+                # a steady stream of small credits to the same wallet while the withdrawals run (persistent driver: the
+                # withdrawal's own ledger transactions keep losing to them and must be retried until they commit)
+                for _ in range(r.choice([3, 4])):
+                    self.emit({"op": "CreditLoop", "acct": w, "n": r.choice([80, 160]), "amt": 1})
             once = r.random() < 0.5
         elif wallets or (not self.race and r.random() < 0.25):
             # wallets: linking and withdrawals (a withdrawal racing a keep-alive that credits the same
